@@ -1,7 +1,7 @@
 """Property registry: which arms decide which property, tiers, and evidence metadata."""
 from types import SimpleNamespace as NS
 
-from .checks import c19a, c15, c16, c05s, c05h, c03, c13s, c13g, c04, c20
+from .checks import c19a, c19b, c19c, c15, c16, c05s, c05h, c03, c13s, c13g, c04, c20
 from .refmodel import bitset as _bitset
 
 REAL_COMMON = ['all of elementpath (imported from /repo working tree)', 'CPython re/decimal/json/expat',
@@ -22,7 +22,7 @@ def register(**kw):
 
 register(
     ID='C19', LEVEL='fault_enumeration',
-    ARMS=[(c19a, 1.0)],
+    ARMS=[(c19a, 0.5), (c19b, 0.3), (c19c, 0.2)],
     TIERS={'quick': {'runs': 1500, 'wall_cap': 100, 'minimise_budget': 30},
            'thorough': {'runs': 40000, 'wall_cap': 800, 'minimise_budget': 90}},
     RULE='each run = one seeded history (2-30 operations) of collation evaluations, lazy-generator '
